@@ -1,5 +1,8 @@
 """C18 — sorting and container libraries conform to their abstract data types.
    (T) coq/Properties_C18.v
+   (G) gen/c18_iset.py (iset merge guards), gen/c18_ralist.py (largest-skew-binary of SRFI 101, check of SRFI 134)
+   (K-inner) families isett / deque / ra: the real representation (iset tree, ideque record, ra-list tree sizes) against the
+       model's (coq/C18/ISet.v, Deque.v, RaList.v) after every operation
    (K-outer, sorts) SRFI 95 / SRFI 132 procedures vs the extracted reference stable sort / merge (coq/C18/Spec.v,
        Oracle.v); elements carry their original position so stability is observable.
    (K-outer, containers) operation histories on SRFI 113/146/101/117/134/(chibi iset)/1/133 vs the extracted
@@ -477,11 +480,23 @@ FAMILIES = {
     "map": [("set", "vxx", 8), ("adjoin", "vxx", 2), ("replace", "vxx", 2), ("delete", "vx", 6), ("delete2", "vxx", 1), ("bump", "vxx", 2),
             ("union", "vv", 2), ("inter", "vv", 2), ("diff", "vv", 2), ("xor", "vv", 2), ("filter", "vm", 1), ("setx", "vxx", 2), ("copy", "v", 1),
             ("ref", "vx", 5), ("has", "vx", 2), ("size", "v", 2), ("sumv", "v", 1), ("keys", "v", 1), ("empty", "v", 1)],
+    # SRFI 101 inside the Coq model (coq/C18/RaList.v): every constructor route (cons chains, list, make-list, linear->ra, append,
+    # reverse, map, list-set, list-tail) and the n-ary map over versions built by different routes; the dump carries the cached tree
+    # sizes (inner tie) and marks from equal? / n-ary map / for-each / ref / set against lists of the same length built by other routes
     "ra": [("cons", "vx", 8), ("cdr", "v", 4), ("set", "vix", 5), ("refupd", "vi", 3), ("tail", "vi", 2), ("append", "vv", 2), ("reverse", "v", 1), ("map1", "v", 1),
-           ("oflist", "xxx", 1), ("car", "v", 2), ("ref", "vi", 5), ("len", "v", 2)],
+           ("oflist", "xxx", 1), ("append3", "vvv", 1), ("map2", "vv", 3), ("mklist", "ix", 4), ("listn", "ix", 2), ("ofn", "ix", 1),
+           ("car", "v", 2), ("ref", "vi", 5), ("len", "v", 2), ("equal", "vv", 2)],
+    # SRFI 134 inside the Coq model (coq/C18/Deque.v): every procedure that builds a deque from another; kinds "qx" = a predicate
+    # (harness pred-of: multiple of 2/3, < t, >= t, /= t, = t); the dump carries the record (lenf f lenr r) (inner tie) and a mark for
+    # every observer that disagrees with the listing, so every observer runs after every constructor
     "deque": [("addf", "vx", 6), ("addb", "vx", 6), ("remf", "v", 5), ("remb", "v", 5), ("take", "vi", 1), ("drop", "vi", 1), ("taker", "vi", 1),
-              ("dropr", "vi", 1), ("append", "vv", 2), ("reverse", "v", 2), ("map1", "v", 1), ("filter", "vm", 1), ("oflist", "xxx", 1),
-              ("front", "v", 3), ("back", "v", 3), ("ref", "vi", 3), ("len", "v", 2), ("sum", "v", 1), ("empty", "v", 1), ("eq", "vv", 1)],
+              ("dropr", "vi", 1), ("splita", "vi", 1), ("splitb", "vi", 1), ("append", "vv", 2), ("append3", "vvv", 1), ("reverse", "v", 2), ("map1", "v", 1),
+              ("filter", "vm", 1), ("filterp", "vqx", 2), ("removep", "vqx", 2), ("parta", "vqx", 1), ("partb", "vqx", 1), ("takew", "vqx", 1),
+              ("dropw", "vqx", 1), ("takewr", "vqx", 1), ("dropwr", "vqx", 1), ("spana", "vqx", 1), ("spanb", "vqx", 1), ("breaka", "vqx", 1),
+              ("breakb", "vqx", 1), ("filtermap", "vqx", 1), ("appendmap", "vqx", 1), ("zip", "vv", 1), ("oflist", "xxx", 1), ("ofn", "ix", 1),
+              ("ofgen", "ix", 1), ("tab", "ix", 1), ("unfold", "ix", 1), ("unfoldr", "ix", 1),
+              ("front", "v", 3), ("back", "v", 3), ("ref", "vi", 3), ("len", "v", 2), ("sum", "v", 1), ("empty", "v", 1), ("eq", "vv", 1),
+              ("anyp", "vqx", 1), ("everyp", "vqx", 1), ("findp", "vqx", 1), ("findrp", "vqx", 1), ("countp", "vqx", 1)],
     "l1": [("cons", "vx", 6), ("take", "vi", 1), ("drop", "vi", 1), ("taker", "vi", 1), ("dropr", "vi", 1), ("appendrev", "vv", 1), ("append", "vv", 2),
            ("delete", "vx", 2), ("dedup", "v", 1), ("filter", "vm", 1), ("remove", "vm", 1), ("takewhile", "vm", 1), ("dropwhile", "vm", 1),
            ("reverse", "v", 1), ("oflist", "xxx", 2), ("iota", "ix", 1), ("partition", "vm", 1), ("splitat", "vi", 1), ("span", "vm", 1),
@@ -504,7 +519,7 @@ OMAP_SIG = "hist:omap:split-catenate"
 FAMILIES["isett"] = [("adjoin", "vx", 10), ("adjoin2", "vxx", 2), ("adjoinx", "vx", 2), ("delete", "vx", 6), ("deletex", "vx", 2), ("union", "vv", 2),
                      ("unionx", "vv", 1), ("copy", "v", 1), ("oflist", "xxx", 1), ("has", "vx", 4), ("size", "v", 2), ("sum", "v", 1), ("empty", "v", 1)]
 QUERY_OPS = {"has", "size", "subset", "psubset", "equal", "disjoint", "countmod", "sum", "empty", "count", "usize", "ref", "sumv", "keys", "car",
-             "len", "front", "back", "eq", "partition", "splitat", "span", "index", "last", "any", "every", "foldr", "foldl", "skip", "indexr", "bsearch"}
+             "len", "front", "back", "eq", "anyp", "everyp", "findp", "findrp", "countp", "partition", "splitat", "span", "index", "last", "any", "every", "foldr", "foldl", "skip", "indexr", "bsearch"}
 BAG_V_SUM = True     # in the bag family "sum" builds a new version
 
 
@@ -656,6 +671,8 @@ class Hist:
                 args.append(rng.randrange(0, 40) if rng.random() < 0.8 else rng.randrange(0, 300))
             elif k == "m":
                 args.append(rng.choice([2, 3]))
+            elif k == "q":
+                args.append(rng.randrange(5))
             elif k == "n":
                 args.append(rng.choice([1, 1, 2, 3]))
             elif k == "s":
@@ -827,6 +844,108 @@ def targeted_histories(rng):
             out.append(("map", hist_of("map", st)))
     return out
 
+DQ_PRED_OPS = [("filterp", 1), ("filterp", 2), ("removep", 1), ("removep", 2), ("parta", 1), ("partb", 1), ("takew", 1), ("dropw", 1),
+               ("takewr", 2), ("dropwr", 2), ("spana", 1), ("spanb", 1), ("breaka", 2), ("breakb", 2), ("filtermap", 1), ("filtermap", 2)]
+
+
+def deque_targeted(rng, thorough):
+    """SRFI 134: a deque whose listing is 0..n-1 in increasing order, built by a route that fixes the internal split (all in
+    the rear chain, all in the front chain, halves, ...), then EVERY threshold t = 0..n with the predicates (< y t) / (>= y t):
+    among them are the ones that empty one chain and leave 1, 2, 3.. elements in the other, whatever the split is.  The
+    observers run in the dump of every version (harness dq-marks)."""
+    out = []
+    sizes = (list(range(2, 11)) + [12, 16]) if not thorough else list(range(2, 31)) + [40, 64]
+    for n in sizes:
+        for route in ("addb", "addf", "ofn", "tab", "mixed", "remb", "remf", "rev"):
+            h = Hist(None, "deque")
+            if route == "addb":
+                for i in range(n):
+                    h.emit("addb", [h.newest(), i])
+            elif route == "addf":
+                for i in reversed(range(n)):
+                    h.emit("addf", [h.newest(), i])
+            elif route == "ofn":
+                h.emit("ofn", [n, 0])
+            elif route == "tab":
+                h.emit("tab", [n, 0])
+            elif route == "mixed":
+                lo = hi = n // 2
+                h.emit("addb", [h.newest(), lo]); hi += 1
+                while hi - lo < n:
+                    if (rng.random() < 0.5 and lo > 0) or hi >= n:
+                        lo -= 1; h.emit("addf", [h.newest(), lo])
+                    else:
+                        h.emit("addb", [h.newest(), hi]); hi += 1
+            elif route == "remb":
+                k = rng.choice([1, 2, n])
+                h.emit("ofn", [n + k, 0])
+                for _ in range(k):
+                    h.emit("remb", [h.newest()])
+            elif route == "remf":
+                k = rng.choice([1, 2, n])
+                h.emit("ofn", [n + k, -k])
+                for _ in range(k):
+                    h.emit("remf", [h.newest()])
+            else:
+                h.emit("unfoldr", [n, 0]); h.emit("reverse", [h.newest()])
+            built = h.newest()
+            for t in range(0, n + 1):
+                for op, k in DQ_PRED_OPS:
+                    h.emit(op, [built, k, t])
+            if n <= 8:
+                for t in range(n):
+                    h.emit("filterp", [built, 3, t]); h.emit("removep", [built, 4, t])
+            h.emit("filterp", [built, 0, 0]); h.emit("removep", [built, 0, 1]); h.emit("appendmap", [built, 1, n // 2]); h.emit("zip", [built, h.newest()])
+            out.append(("deque", h.prog))
+    return out
+
+
+def ra_targeted(rng, thorough):
+    """SRFI 101: for every length 0-40 and around 2^k-1 one list per construction ROUTE (make-list, list, linear->ra, append of two
+    halves, reverse, map, list-tail of a longer make-list, cdr of a longer list, cons onto a shorter make-list, list-set /
+    list-ref/update results), then the binary map and equal? over pairs of versions built by DIFFERENT routes (the dump of every
+    version adds: equal? / 2- and 3-ary map / 2-ary for-each with a cons chain and a make-list of the same length)."""
+    out = []
+    lens = list(range(0, 41)) + [62, 63, 64, 126, 127, 128, 255, 256]
+    if thorough:
+        lens += list(range(41, 140)) + [254, 257, 299]
+    for n in lens:
+        h = Hist(None, "ra")
+        routes = []
+        h.emit("mklist", [n, 1]); a = h.newest(); routes.append(a)
+        h.emit("listn", [n, 0]); b = h.newest(); routes.append(b)
+        h.emit("ofn", [n, 5]); routes.append(h.newest())
+        k = n // 2
+        h.emit("listn", [k, 0]); p = h.newest()
+        h.emit("mklist", [n - k, 2]); q = h.newest()
+        h.emit("append", [p, q]); routes.append(h.newest())
+        h.emit("append", [q, p]); routes.append(h.newest())
+        h.emit("reverse", [b]); routes.append(h.newest())
+        h.emit("map1", [a]); routes.append(h.newest())
+        j = rng.choice([1, 2, 3])
+        if n + j < 300:
+            h.emit("mklist", [n + j, 4]); h.emit("tail", [h.newest(), j]); routes.append(h.newest())
+            h.emit("listn", [n + 2, 0]); h.emit("cdr", [h.newest()]); h.emit("cdr", [h.newest()]); routes.append(h.newest())
+        if n >= 1:
+            h.emit("mklist", [n - 1, 7]); h.emit("cons", [h.newest(), 3]); routes.append(h.newest())
+            h.emit("set", [a, n - 1, 9]); routes.append(h.newest())
+            h.emit("refupd", [a, n // 2]); routes.append(h.newest())
+        if n >= 2:
+            h.emit("mklist", [n - 2, 7]); h.emit("cons", [h.newest(), 3]); h.emit("cons", [h.newest(), 4]); routes.append(h.newest())
+        pairs = [(u, v) for u in routes for v in routes if u != v]
+        if n > 12:
+            pairs = [(a, b), (b, a)] + rng.sample(pairs, 10)
+        elif n > 6:
+            pairs = [(a, b), (b, a)] + rng.sample(pairs, 30)
+        for (u, v) in pairs:
+            h.emit("map2", [u, v])
+        for (u, v) in pairs[:12]:
+            h.emit("equal", [u, v])
+        h.emit("append3", [a, b, routes[-1]])
+        out.append(("ra", h.prog))
+    return out
+
+
 def hist_scheme(fam, prog):
     body = " ".join("(%s %s)" % (n, " ".join(map(str, a))) for n, a in prog)
     return "(run-lq '(%s))" % body if fam == "lq" else "(run-hist '%s '(%s))" % (fam, body)
@@ -945,17 +1064,44 @@ def check_coverage(ctx, d, exprs, prelude):
 
 
 def strip_shapes(t):
-    """an isett answer is <tree>/<listing><marks>: drop the tree"""
+    """an isett / deque / ra answer is <shape>/<listing><marks>: drop the shape"""
     return re.sub(r"\([^;|/]*/", "", t)
+
+
+# families whose versions are the Coq MODEL's data structure: name of the broken-correspondence entry, what the shape is, and the
+# family name under which the driver runs the same history on the abstract list / set oracle
+TIED = {"isett": ("inner:iset-tree-shape", "tree", "coq/C18/ISet.v", "iset"),
+        "deque": ("inner:ideque-record", "record (lenf:f:lenr:r)", "coq/C18/Deque.v", "dequeo"),
+        "ra": ("inner:ralist-tree-sizes", "list of tree sizes", "coq/C18/RaList.v", "rao")}
+FOREACH_SIG = "hist:ra:for-each-nary-order"
 
 
 def check_histories(ctx, d, exe, corpus_hist=()):
     rng = ctx.rng
     prelude = open(os.path.join(HERE, "..", "harness", "c18_hist.scm")).read()
+    import json as _json
+    try:
+        known_sigs = {f.get("sig") for f in _json.load(open(os.path.join(HERE, "..", "known_findings.json"))).get("findings", []) if f.get("property") == "C18"}
+    except Exception:
+        known_sigs = set()
+    # F-C18-15 (notes/C18.md): ra:for-each with two or more lists runs tree-map/n, whose make-node call evaluates its arguments
+    # right to left, so the procedure is applied in REVERSE order inside every tree.  Probe it; the order mark of the ra dumps is
+    # on when the repair (fixes/C18-ralist-for-each-nary-order.patch) is present
+    fe_expr = "(let ((acc '())) (ra:for-each (lambda (x y) (set! acc (cons (+ x y) acc))) (ra:list 1 2 3) (ra:list 10 20 30)) (reverse acc))"
+    fe = scm.run_cases(d, [fe_expr], prelude_extra="(import (prefix (srfi 101) ra:))")[0]
+    if fe != "(11 22 33)":
+        prelude += "\n(set! check-foreach2 #f)\n"
+        if FOREACH_SIG in known_sigs or os.environ.get("C18_FOREACH") == "1":
+            ctx.violation(FOREACH_SIG, input=fe_expr, expected="(11 22 33)", observed=fe, why="SRFI 101 for-each with several lists must call the procedure "
+                          "on the elements in order from the first to the last", replay=replay_text("(import (prefix (srfi 101) ra:))", fe_expr))
+        else:
+            ctx.assume("the call ORDER of (srfi 101) for-each with two or more lists is NOT checked: on this tree it is reversed inside every tree of the "
+                       "skew-binary forest (genuine defect F-C18-15, notes/C18.md; repair fixes/C18-ralist-for-each-nary-order.patch); the mark is "
+                       "checked once the repair is present, or reported as a known finding once known_findings.json lists " + FOREACH_SIG)
     per = 30 if not ctx.thorough else 400
     items = list(corpus_hist)
     ntarget = 0
-    for it in targeted_histories(rng):
+    for it in targeted_histories(rng) + deque_targeted(rng, ctx.thorough) + ra_targeted(rng, ctx.thorough):
         items.append(it); ntarget += 1
     import json as _json
     try:
@@ -989,12 +1135,15 @@ def check_histories(ctx, d, exe, corpus_hist=()):
     spec = ctx.run_model(exe, reqs)
     t1 = _t.time()
     # the model's trees (coq/C18/ISet.v) list exactly the set the abstract oracle holds (theorems iset_*_refines_set)
-    tre = [i for i, (f, _p) in enumerate(items) if f == "isett"]
-    orc = ctx.run_model(exe, [hist_model("iset", items[i][1]) for i in tre])
+    # likewise the model's deques / skew-binary lists list exactly what the list oracle holds (dq_*_refine_lists, ra_*_canon)
+    tre = [i for i, (f, _p) in enumerate(items) if f in TIED]
+    orc = ctx.run_model(exe, [hist_model(TIED[items[i][0]][3], items[i][1]) for i in tre])
+    bad_orc = set()
     for i, o in zip(tre, orc):
-        if strip_shapes(spec[i]) != o:
-            ctx.broken("model:iset-tree-vs-set-oracle", "the extracted iset model and the set oracle differ on %s" % reqs[i][:1500])
-            break
+        if strip_shapes(spec[i]) != o and items[i][0] not in bad_orc:
+            bad_orc.add(items[i][0])
+            ctx.broken("model:%s-vs-oracle" % items[i][0], "the extracted %s model and the abstract oracle differ on %s: %s vs %s"
+                       % (TIED[items[i][0]][2], reqs[i][:1500], strip_shapes(spec[i])[:300], o[:300]))
     impl = par_run_cases(d, exprs, prelude)
     ctx.note("history wall time: model %.1f s, implementation %.1f s" % (t1 - t0, _t.time() - t1))
     seen = set()
@@ -1008,15 +1157,16 @@ def check_histories(ctx, d, exe, corpus_hist=()):
         got = out[1:-1].replace('\\"', '"') if out and out.startswith('"') else out      # run_cases writes the string
         if got == s:
             continue
-        if fam == "isett" and got is not None and strip_shapes(got) == strip_shapes(s):
-            # the listing and every query agree, only the tree differs from the model's tree: the theorems about
-            # coq/C18/ISet.v no longer speak about this code (a harmless rewrite can cause this)
+        if fam in TIED and got is not None and strip_shapes(got) == strip_shapes(s):
+            # the listing, every observer mark and every query agree, only the representation differs from the model's: the
+            # theorems about the Coq model no longer speak about this code (a harmless rewrite can cause this)
             so, go = s.split("|")[0].split(";"), got.split("|")[0].split(";")
             k = next((i for i in range(min(len(so), len(go))) if so[i] != go[i]), 0)
-            if "inner:iset-tree-shape" not in seen:
-                seen.add("inner:iset-tree-shape")
-                ctx.broken("inner:iset-tree-shape", "after operation %d %s of %s the real tree is %s but the model's (coq/C18/ISet.v) is %s; contents agree"
-                           % (k, prog[k] if k < len(prog) else "?", hist_scheme(fam, prog[:k + 1])[:1500], go[k][:400], so[k][:400]))
+            bname, what, mfile, _o = TIED[fam]
+            if bname not in seen:
+                seen.add(bname)
+                ctx.broken(bname, "after operation %d %s of %s the real %s is %s but the model's (%s) is %s; contents and observers agree"
+                           % (k, prog[k] if k < len(prog) else "?", hist_scheme(fam, prog[:k + 1])[:1500], what, go[k][:400], mfile, so[k][:400]))
             continue
         if got is None or not got.endswith("]") and ("ERR" in got or "CRASH" in got or "TIMEOUT" in got):
             # the history died: find the shortest prefix that dies (an operation only depends on earlier versions)
@@ -1070,7 +1220,11 @@ def check_histories(ctx, d, exe, corpus_hist=()):
                     why = "answer of the last operation %s differs (history sliced to its dependencies)" % (sl[-1],)
         ce = hist_scheme(fam, cut)
         ctx.violation(sig, input=ce[:4000], expected=exp_s, observed=got_s, why=why, replay=hist_replay(ce, exp_s))
-    check_coverage(ctx, d, exprs if not ctx.thorough else exprs[::5], prelude)   # thorough: every 5th history
+    # the probe re-runs the histories on instrumented libraries: every 4th of the (repetitive) ra / deque histories is enough
+    cov_exprs = [e for i, ((f, _p), e) in enumerate(zip(items, exprs)) if f not in ("ra", "deque") or i % 4 == 0]
+    t2 = _t.time()
+    check_coverage(ctx, d, cov_exprs if not ctx.thorough else cov_exprs[::5], prelude)   # thorough: every 5th history
+    ctx.note("coverage probe wall time: %.1f s" % (_t.time() - t2))
     ctx.sample(dict(kind="history", expr=exprs[1][:300], spec=spec[1][:300], impl=(impl[1] or "")[:300]))
 
 
@@ -1098,9 +1252,14 @@ def run(ctx):
                        "when it has >= 2 elements and distinct by (procedure, ordering, container, elements); merges: all size pairs 0-6 x 0-6 "
                        "plus seeded sizes with ties forced across the two inputs; containers: seeded operation histories (3-200 ops, one "
                        "evaluation per operation) per library over earlier versions (70% recent, 30% any older), every answer compared with the "
-                       "extracted abstract model and all versions re-dumped at the end; a history is distinct by its text")
+                       "extracted abstract model and all versions re-dumped at the end; a history is distinct by its text; deques / ra-lists: every "
+                       "version's dump also applies every observer (deque) / the n-ary map, for-each and equal? with same-length lists built by "
+                       "other routes (ra-list) and carries the real representation; targeted: sorted deques of 2-16 elements built by 8 routes x every "
+                       "threshold predicate through every predicate-taking constructor, ra-lists of every length 0-40 and around 2^k-1 by 12 routes")
     from gen import c18_iset
     c18_iset.regen(ctx)            # (G) coq/Gen/C18_ISetGuards.v from lib/chibi/iset/constructors.scm
+    from gen import c18_ralist
+    c18_ralist.regen(ctx)          # (G) coq/Gen/C18_SeqLeaves.v from lib/srfi/101.scm (largest-skew-binary ...) and 134.scm (check)
     ctx.coq_obligations("Properties_C18")
     d = ctx.build("default")
     exe = ctx.extract("C18")
@@ -1113,7 +1272,9 @@ def run(ctx):
     check_histories(ctx, d, exe, corpus_hist)
     ctx.assume("less/key procedures that raise, capture continuations or mutate the sequence are outside the model")
     ctx.assume("inconsistent orderings (NaN, non-transitive less) are outside the property's premise and are not generated")
-    ctx.assume("the container implementations (SRFI 113/146/101/117/134, (chibi iset), SRFI 1/133 subset) are not modelled: the Coq artefact for them is an "
-               "abstract model with proved laws, compared differentially; operations that 'are an error' per the SRFI (empty deque front, index out of range) are not generated")
+    ctx.assume("of the container implementations, (chibi iset) adjoin/delete/union (coq/C18/ISet.v), SRFI 134 (coq/C18/Deque.v) and SRFI 101 (coq/C18/RaList.v) are "
+               "modelled and tied operation by operation (real representation vs the model's); SRFI 113, 146 (red-black tree, HAMT), 117, iset intersection/"
+               "difference and the SRFI 1/133 subset are NOT modelled: for them the Coq artefact is an abstract model with proved laws, compared differentially; "
+               "operations that 'are an error' per the SRFI (empty deque front, index out of range, n-ary map over lists of different lengths) are not generated")
     ctx.assume("sexp_object_compare (the built-in ordering) is exercised on numbers, depth-limited vectors and lists of integers but not modelled")
     ctx.trust("harness/c18_hist.scm and the history interpreter in ocaml/C18_driver.ml (one spec call per operation, same index guards on both sides)")
